@@ -56,6 +56,10 @@ type World struct {
 	SyncAck        []bool        // batch i was acknowledged with sync (or committed transaction)
 	Errs           []string      // operation errors (for fault checks; not violations by themselves)
 	TolerateErrors bool
+	CallPos        []int // storage-log position when batch i was issued
+	AckPos         []int // storage-log position when batch i returned
+	curCall        int
+	trCall         int
 }
 
 func NewWorld(cfg Config) *World {
@@ -132,6 +136,12 @@ func (w *World) record(b model.Batch, err error) {
 	w.Issued = append(w.Issued, b)
 	w.Acked = append(w.Acked, err == nil)
 	w.SyncAck = append(w.SyncAck, err == nil && w.Sync)
+	w.pos()
+}
+
+func (w *World) pos() {
+	w.CallPos = append(w.CallPos, w.curCall)
+	w.AckPos = append(w.AckPos, len(w.Stor.Ops))
 }
 
 func (w *World) opErr(op string, err error) {
@@ -219,6 +229,7 @@ func (w *World) write(mb model.Batch) {
 	w.Acked = append(w.Acked, err == nil)
 	// a large batch goes through a transaction: durable on success regardless of sync
 	w.SyncAck = append(w.SyncAck, err == nil && (w.Sync || w.isLarge(mb)))
+	w.pos()
 	if err == nil {
 		w.M.Apply(mb)
 	}
@@ -266,7 +277,7 @@ func (w *World) enabled(op string) bool {
 		return w.Tr == nil
 	case "tput", "tdel", "twrite", "tbig", "commit", "discard":
 		return w.Tr != nil
-	case "put", "putE", "putL", "putM", "del", "b1", "b2", "big", "w", "cr", "crb", "crk":
+	case "put", "putE", "putL", "putM", "del", "b1", "b2", "big", "w", "trx", "cr", "crb", "crk":
 		// writers and CompactRange block while a transaction is open
 		return w.Tr == nil
 	}
@@ -332,6 +343,16 @@ func atoi(s string) int {
 // Apply performs one operation on the DB and on the model.
 func (w *World) Apply(op string) {
 	w.Step++
+	w.curCall = len(w.Stor.Ops)
+	if len(op) > 1 && op[0] == 'S' {
+		// "S<op>": the same operation with WriteOptions.Sync
+		old := w.Sync
+		w.Sync = true
+		w.Step--
+		w.Apply(op[1:])
+		w.Sync = old
+		return
+	}
 	t, arg := splitOp(op)
 	switch t {
 	case "put":
@@ -352,6 +373,30 @@ func (w *World) Apply(op string) {
 		w.write(model.Batch{{K: "a", V: w.val("M")}, {K: "c", V: w.val("M")}, {Del: true, K: "b"}})
 	case "w":
 		w.write(w.parseBatch(arg))
+	case "trx":
+		// OpenTransaction; Write(batch); Commit — as one history step
+		mb := w.parseBatch(arg)
+		tr, err := w.DB.OpenTransaction()
+		if err != nil {
+			w.record(mb, err)
+			w.SyncAck[len(w.SyncAck)-1] = false
+			w.opErr("OpenTransaction", err)
+			return
+		}
+		b, _ := w.mkBatch(mb)
+		err = tr.Write(b, nil)
+		if err == nil {
+			err = tr.Commit()
+		}
+		if err != nil {
+			tr.Discard()
+		}
+		w.record(mb, err)
+		w.SyncAck[len(w.SyncAck)-1] = err == nil
+		if err == nil {
+			w.M.Apply(mb)
+		}
+		w.opErr("transaction", err)
 	case "cr":
 		w.opErr("CompactRange", w.DB.CompactRange(util.Range{}))
 	case "crb":
@@ -396,6 +441,7 @@ func (w *World) Apply(op string) {
 		}
 		w.Tr = tr
 		w.TrM = w.M.Clone()
+		w.trCall = w.curCall
 	case "tput":
 		kb, vb := buf(arg), buf(w.val("M"))
 		v := string(vb)
@@ -433,6 +479,8 @@ func (w *World) Apply(op string) {
 			w.Issued = append(w.Issued, diffBatch(w.M, w.TrM))
 			w.Acked = append(w.Acked, true)
 			w.SyncAck = append(w.SyncAck, true)
+			w.CallPos = append(w.CallPos, w.trCall)
+			w.AckPos = append(w.AckPos, len(w.Stor.Ops))
 			w.M = w.TrM
 			w.M.Cmp = w.cmp
 			w.Tr, w.TrM = nil, nil
